@@ -16,7 +16,8 @@ RULE = ("sequences of vault operations (open_deposit_mint on new/existing/unknow
         "deposit/withdraw_uni_position, burn_and_withdraw, liquidate, update, _reduce_debt, remove_liquidity on the pool) on a real "
         "Broker + UniLpMarket(oSQTH/WETH) + SqueethMarket, interleaved with moves along random price / norm-factor paths (spot mode, "
         "7-point TWAP, short history, coarse grid, shocks) plus a boundary stream of exactly representable ties (2·coll = 3·debt, "
-        "coll = 0.5, coll − pay = 0.5, coll = pay); bucket = (operation, model rejection cause / ok, argument class, path kind)")
+        "coll = 0.5, coll − pay = 0.5, coll = pay), the same LP cases on a pool whose token0 is oSQTH, and every amount slot fed with NaN / sNaN / +-Infinity / 1E+-400 / -0; "
+        "bucket = (operation, model rejection cause / ok, argument class, path kind)")
 TRUSTED = ["the geometric mean of the selected TWAP prices (float log/pow in helper.calc_twap_price) is an oracle: the value the real code "
            "computed is handed to the model; it is cross-checked against a 60-digit Decimal geometric mean at 1e-9",
            "theorems are stated for the exact rational semantics (NumCtx.exact); the driver reproduces the 35-digit Decimal rounding bit-exactly",
